@@ -65,6 +65,7 @@ type Obligation struct {
 
 // FV verifies one function (with its inlined callees).
 type FV struct {
+	ptrLocs   map[Term]*Loc // pointer terms that denote locations inside values (element / field-of-element addresses)
 	noTriggers bool // proving a lemma: its own trigger annotations are not emitted
 	inBinder  int // >0 while translating the body of a quantifier
 	eng       *Engine
@@ -477,6 +478,10 @@ func (v *FV) typeFacts(t Term, ty types.Type) Term {
 			lim := v.idxLit(1 << 48)
 			return fmt.Sprintf("(and %s (%s (sl_off %s) %s) (%s (sl_cap %s) %s))", base, le, t, lim, le, t, lim)
 		}
+		if v.mode == ModeMath {
+			// lengths are Go ints
+			return fmt.Sprintf("(and %s (<= (sl_cap %s) 9223372036854775807))", base, t)
+		}
 		return base
 	case *types.Struct:
 		var fs []string
@@ -786,6 +791,13 @@ func (v *FV) cellArray(t types.Type) string {
 func (v *FV) elemArray(elem types.Type) string {
 	s := v.sortOf(elem)
 	name := "E_" + mangle(s)
+	if v.mode == ModeMath {
+		// all integer types share the sort Int in math mode: keep the backing stores of
+		// differently typed slices apart (Go cannot alias them without unsafe)
+		if b, ok := elem.Underlying().(*types.Basic); ok && b.Info()&types.IsInteger != 0 && b.Kind() != types.Int && b.Kind() != types.Int64 {
+			name += "_" + b.Name()
+		}
+	}
 	v.regArray(name, fmt.Sprintf("(Array Int (Array %s %s))", v.idx(), s))
 	return name
 }
